@@ -76,6 +76,72 @@ def regex_sites(model):
     return out
 
 
+MATCH_METHODS = {'match', 'search', 'fullmatch', 'sub', 'subn', 'split',
+                 'findall', 'finditer'}
+
+
+def _applied_while_compiling(model, owner, call, comp):
+    """Where a pattern object built from non-constant text is applied by
+    code that runs while a template is compiled (None: nowhere).  The
+    object is followed through locals, attributes of self and the return
+    value of helpers; building it is harmless, matching with it is not."""
+    cfuncs = [f for f in model.all_funcs() if f.where in comp]
+    locs, attrs, rets = set(), set(), set()
+
+    def sink(node, fi):
+        # node: an expression holding the pattern object, inside fi
+        par = getattr(node, '_dt_parent', None)
+        if isinstance(par, ast.Attribute) and par.attr in MATCH_METHODS:
+            return f'{fi.where}:{par.lineno}'
+        if isinstance(par, (ast.Assign, ast.AnnAssign, ast.NamedExpr)):
+            tg = par.targets if isinstance(par, ast.Assign) else [par.target]
+            for t in tg:
+                if isinstance(t, ast.Name):
+                    locs.add((fi.where, t.id))
+                elif isinstance(t, ast.Attribute):
+                    attrs.add(t.attr)
+                else:
+                    return f'{fi.where}:{par.lineno}'
+        elif isinstance(par, ast.Return):
+            rets.add(fi.where)
+        elif isinstance(par, ast.Call) and node in par.args:
+            # handed to some other code: re.match(p, ...) or unknown
+            return f'{fi.where}:{par.lineno}'
+        return None
+    hit = sink(call, owner)
+    if hit:
+        return hit
+    for _ in range(4):
+        before = (len(locs), len(attrs), len(rets))
+        for fi in cfuncs:
+            for n in own_nodes(fi.node):
+                holds = False
+                if isinstance(n, ast.Name) and isinstance(n.ctx, ast.Load) \
+                        and (fi.where, n.id) in locs:
+                    holds = True
+                elif isinstance(n, ast.Attribute) and isinstance(
+                        n.ctx, ast.Load) and n.attr in attrs and \
+                        isinstance(n.value, ast.Name) and \
+                        n.value.id == 'self':
+                    holds = True
+                elif isinstance(n, ast.Call):
+                    for t in model.resolve_callee(n.func, fi):
+                        if t[0] == 'func' and t[1].where in rets:
+                            holds = True
+                if not holds:
+                    continue
+                par = getattr(n, '_dt_parent', None)
+                if isinstance(par, (ast.Compare, ast.BoolOp, ast.UnaryOp,
+                                    ast.If, ast.IfExp)):
+                    continue
+                hit = sink(n, fi)
+                if hit:
+                    return hit
+        if (len(locs), len(attrs), len(rets)) == before:
+            break
+    return None
+
+
 def rule_regex(model):
     r = RuleResult('C06.R1', 'no regular expression used while compiling a '
                    'template is exponentially ambiguous (catastrophic '
@@ -89,12 +155,17 @@ def rule_regex(model):
         if owner is None:
             in_compile = any(w.startswith(m.short + ':') for w in comp)
         if pat is None:
+            used = _applied_while_compiling(model, owner, node, comp) \
+                if in_compile and owner is not None else None
             r.instance(where, node, 'dynamic pattern (not analysed: '
-                       'render-time use only)', compile_phase=in_compile)
-            if in_compile and owner is not None and \
-                    owner.name != '__init__':
+                       'render-time use only)' if not used else
+                       'dynamic pattern APPLIED WHILE COMPILING',
+                       compile_phase=in_compile)
+            if used:
                 r.finding(where, node, 'compile-phase regex whose pattern '
-                          'is not a constant', node=node, ctx=owner or m)
+                          'is not a constant (it is applied at ' + used +
+                          ' while the template is compiled)', node=node,
+                          ctx=owner or m)
             continue
         n_const += 1
         try:
@@ -410,7 +481,7 @@ def rule_partial(model):
     return [ra, rb, rc]
 
 
-def _param_dicts(model, fi):
+def _param_dicts(model, fi, _depth=0):
     out = set()
     for n in own_nodes(fi.node):
         if isinstance(n, ast.Assign) and isinstance(n.value, ast.Call):
@@ -422,6 +493,19 @@ def _param_dicts(model, fi):
                     elif isinstance(t, ast.Attribute):
                         out.add(norm(t))
                     # chained:  self.args = args = parse_...()
+    # a helper of a constructor that is handed the dictionary:
+    #   self._init_batching(args)
+    if _depth < 2 and fi.where not in ('DT_Util:name_param',
+                                       'DT_Util:parse_params'):
+        peers = [g for g in fi.module.funcs.values()
+                 if g is not fi and (g.cls is fi.cls or fi.cls is None)]
+        sites = model.helper_calls(peers, fi)
+        for p_ in fi.params():
+            if sites and all(
+                    m is not None and p_ in m and
+                    norm(m[p_]) in _param_dicts(model, h, _depth + 1)
+                    for h, c, m in sites):
+                out.add(p_)
     if fi.where == 'DT_Util:name_param':
         out.add(fi.params()[0])
     if fi.where == 'DT_Util:parse_params' and fi.node.args.kwarg:
